@@ -20,7 +20,9 @@ Record stobs := {
   so_fresh_overlap : nat;               (* rounds in which two of its invocations overlapped *)
   so_misorder : nat;                    (* phase 1, Sequential handlers: events seen after a later event of the same publisher *)
   (* phase 5: rounds of one goroutine publishing a burst to a fresh Async+Sequential handler *)
-  so_burst_bad : nat                    (* rounds in which the burst was not processed completely and in publish order *)
+  so_burst_bad : nat;                   (* rounds in which the burst was not processed completely and in publish order *)
+  (* phase 6: rounds of ClearAll racing with an Unsubscribe that scans a long handler list *)
+  so_resurrected : nat                  (* rounds after which the registry was not empty, or a cleared handler got a later event *)
 }.
 
 Definition ok_stress (i : nat * nat * nat * bool) (o : stobs) : bool :=
@@ -32,7 +34,7 @@ Definition ok_stress (i : nat * nat * nat * bool) (o : stobs) : bool :=
   (if store then Nat.eqb (so_records o) events else Nat.eqb (so_records o) 0) && Nat.eqb (so_disorder o) 0 &&
   Nat.eqb (so_escaped o) 0 &&
   Nat.eqb (so_once_lost o) 0 && Nat.eqb (so_once_stale o) 0 && Nat.eqb (so_dead_seen o) 0 && Nat.eqb (so_probe_bad o) 0 &&
-  Nat.eqb (so_fresh_overlap o) 0 && Nat.eqb (so_misorder o) 0 && Nat.eqb (so_burst_bad o) 0.
+  Nat.eqb (so_fresh_overlap o) 0 && Nat.eqb (so_misorder o) 0 && Nat.eqb (so_burst_bad o) 0 && Nat.eqb (so_resurrected o) 0.
 
 Definition check_stress (c : (nat * nat * nat * bool) * stobs) : bool * bool * nat := (true, ok_stress (fst c) (snd c), 0).
 
@@ -47,7 +49,8 @@ Definition ok_stress01 (i : nat * nat * nat * bool) (o : stobs) : bool :=
 (* C02: the registry ends where the subscriptions and removals put it *)
 Definition ok_stress02 (i : nat * nat * nat * bool) (o : stobs) : bool :=
   let '(nst, nonce, events, store) := i in
-  Nat.eqb (so_count o) nst && Nat.eqb (so_probe_bad o) 0 && Nat.eqb (so_once_stale o) 0 && Nat.eqb (so_escaped o) 0.
+  Nat.eqb (so_count o) nst && Nat.eqb (so_probe_bad o) 0 && Nat.eqb (so_once_stale o) 0 && Nat.eqb (so_resurrected o) 0 &&
+  Nat.eqb (so_escaped o) 0.
 (* C04: Once handlers fire exactly once, for a live publish, and are retired *)
 Definition ok_stress04 (i : nat * nat * nat * bool) (o : stobs) : bool :=
   let '(nst, nonce, events, store) := i in
@@ -76,3 +79,32 @@ Record wsobs := { ws_early : nat;      (* Wait calls that returned while a handl
 Definition ok_wait (o : wsobs) : bool :=
   Nat.eqb (ws_early o) 0 && negb (ws_stuck o) && Nat.eqb (ws_escaped o) 0 && Nat.eqb (ws_running o) 0.
 Definition check_wait (c : (nat * nat * nat) * wsobs) : bool * bool * nat := (true, ok_wait (snd c), 0).
+
+(* persisttimeout.go (C13): real persistence timeouts.  Input: per published value 1..n its kind (0 appended, 1 the
+   Append runs into the persistence timeout, 2 the Append is rejected); observed per value: (calls of the persistence
+   error handler, runs of the subscribed handler), then the values in the log, and panics that escaped Publish. *)
+Record ptobs := { pt_per : list (nat * nat); pt_log : list nat; pt_escaped : nat }.
+Fixpoint pt_expect (kinds : list nat) (v : nat) : list (nat * nat) * list nat :=
+  match kinds with
+  | [] => ([], [])
+  | k :: r => let '(per, lg) := pt_expect r (S v) in
+              (((if Nat.eqb k 0 then 0 else 1), 1) :: per, if Nat.eqb k 0 then v :: lg else lg)
+  end.
+Fixpoint natpairs_eqb (a b : list (nat * nat)) : bool :=
+  match a, b with
+  | [], [] => true
+  | (x1, y1) :: a', (x2, y2) :: b' => Nat.eqb x1 x2 && Nat.eqb y1 y2 && natpairs_eqb a' b'
+  | _, _ => false
+  end.
+Fixpoint nats_eqb (a b : list nat) : bool :=
+  match a, b with
+  | [], [] => true
+  | x :: a', y :: b' => Nat.eqb x y && nats_eqb a' b'
+  | _, _ => false
+  end.
+(* every failed publish is reported exactly once, every successful one not at all; the handler runs once either way;
+   exactly the successful events are in the log, in publish order; nothing escapes *)
+Definition ok_pt (kinds : list nat) (o : ptobs) : bool :=
+  let '(per, lg) := pt_expect kinds 1 in
+  natpairs_eqb per (pt_per o) && nats_eqb lg (pt_log o) && Nat.eqb (pt_escaped o) 0.
+Definition check_pt (c : list nat * ptobs) : bool * bool * nat := (true, ok_pt (fst c) (snd c), 0).
